@@ -666,3 +666,742 @@ Proof.
   - induction name as [|a r IH]; [reflexivity|]. cbn in H. apply andb_true_iff in H. destruct H as [Ha Hr].
     destruct r as [|b r2]; [cbn; now apply is_word_not_quote|]. cbn [last_is]. now apply IH.
 Qed.
+
+(* ================================================================== *)
+(* E. prepare_workflow: ordering and watch list *)
+
+Definition field_trees (f : field) : list node :=
+  match f with FExpr ast => [ast] | _ => [] end.
+
+Definition fe_trees (f : fe_field) : list node :=
+  match f with FEExpr ast _ => [ast] | _ => [] end.
+
+(* the compiled expressions of a step: refSwitch.switchOn, skipIf, forEach.itemIn, inputs, state *)
+Definition step_trees (st : step_spec) : list node :=
+  (match st_switch st with Some sw => field_trees (sw_on sw) | None => [] end) ++
+  field_trees (st_skip_if st) ++ fe_trees (st_for_each st) ++
+  field_trees (st_inputs st) ++ field_trees (st_state st).
+
+Lemma fold_max_ok : forall l a, fold_left oc_max l a = COk -> a = COk /\ Forall (fun c => c = COk) l.
+Proof.
+  induction l as [|c r IH]; intros a H; cbn in H.
+  - split; [assumption|constructor].
+  - apply IH in H. destruct H as [H Hr]. destruct a, c; try discriminate H.
+    split; [reflexivity|]. constructor; [reflexivity|assumption].
+Qed.
+
+Lemma filter_nil : forall A (f : A -> bool) l, filter f l = [] -> forall x, In x l -> f x = false.
+Proof.
+  induction l as [|a r IH]; intros H x Hx; [contradiction|].
+  cbn in H. destruct (f a) eqn:E; [discriminate H|].
+  destruct Hx as [<-|Hx]; [assumption|now apply IH].
+Qed.
+
+Lemma order_check_step : forall label known keys l deps,
+  order_check label known keys = Done (SStep l deps) ->
+  l = label /\ deps = somes (needed_steps keys) /\
+  forall n, In n (needed_steps keys) -> opt_mem n known = true.
+Proof.
+  intros label known keys l deps H. unfold order_check in H.
+  destruct (filter _ (needed_steps keys)) as [|a r] eqn:E.
+  - inversion H; subst. repeat split; try reflexivity.
+    intros n Hn. pose proof (filter_nil _ _ _ E n Hn) as Hf. now apply negb_false_iff in Hf.
+  - destruct (existsb is_none (a :: r)); discriminate H.
+Qed.
+
+Lemma order_check_err : forall label known keys l c,
+  order_check label known keys = Done (SErr l c) -> c = CPermFail.
+Proof.
+  intros label known keys l c H. unfold order_check in H.
+  destruct (filter _ (needed_steps keys)) as [|a r]; [discriminate H|].
+  destruct (existsb is_none (a :: r)); [discriminate H|]. now inversion H.
+Qed.
+
+Lemma order_check_raises : forall label known keys e,
+  order_check label known keys = Raised e -> e = ETypeError /\ In None (needed_steps keys).
+Proof.
+  intros label known keys e H. unfold order_check in H.
+  destruct (filter _ (needed_steps keys)) as [|a r] eqn:E; [discriminate H|].
+  destruct (existsb is_none (a :: r)) eqn:Ex; [|discriminate H].
+  inversion H; subst. split; [reflexivity|].
+  apply existsb_exists in Ex. destruct Ex as ([s|] & Hin & Hn); [discriminate Hn|].
+  rewrite <- E in Hin. apply filter_In in Hin. tauto.
+Qed.
+
+Lemma field_keys_some : forall f k t, field_keys f = Done (Some k) -> In t (field_trees f) ->
+  extract t = Done k.
+Proof.
+  intros [| |ast] k t H Hin; cbn in *; try contradiction.
+  destruct Hin as [<-|[]]. destruct (extract ast) as [k'|e]; cbn in H; [|discriminate H].
+  now inversion H.
+Qed.
+
+Lemma fe_keys_some : forall f k t, fe_keys f = Done (Some k) -> In t (fe_trees f) ->
+  extract t = Done k.
+Proof.
+  intros [| |ast hk] k t H Hin; cbn in *; try contradiction.
+  destruct Hin as [<-|[]]. destruct (extract ast) as [k'|e]; cbn in H; [|discriminate H].
+  destruct hk; now inversion H.
+Qed.
+
+Lemma load_step_fields_ok : forall st k0 keys,
+  load_step_fields st k0 = Done (true, keys) ->
+  incl k0 keys /\
+  forall t, In t (field_trees (st_skip_if st) ++ fe_trees (st_for_each st) ++
+                  field_trees (st_inputs st) ++ field_trees (st_state st)) ->
+            exists S, extract t = Done S /\ incl S keys.
+Proof.
+  intros st k0 keys H. unfold load_step_fields in H.
+  destruct (field_keys (st_skip_if st)) as [[k1|]|e] eqn:E1; cbn [bind] in H; try discriminate H.
+  destruct (fe_keys (st_for_each st)) as [[k2|]|e] eqn:E2; cbn [bind] in H; try discriminate H.
+  destruct (field_keys (st_inputs st)) as [[k3|]|e] eqn:E3; cbn [bind] in H; try discriminate H.
+  destruct (field_keys (st_state st)) as [[k4|]|e] eqn:E4; cbn [bind] in H; try discriminate H.
+  inversion H; subst keys; clear H. split.
+  - apply incl_appl, incl_refl.
+  - intros t Ht. repeat (apply in_app_or in Ht; destruct Ht as [Ht|Ht]).
+    + exists k1. split; [eapply field_keys_some; eassumption|].
+      apply incl_appr, incl_appl, incl_refl.
+    + exists k2. split; [eapply fe_keys_some; eassumption|].
+      apply incl_appr, incl_appr, incl_appl, incl_refl.
+    + exists k3. split; [eapply field_keys_some; eassumption|].
+      apply incl_appr, incl_appr, incl_appr, incl_appl, incl_refl.
+    + exists k4. split; [eapply field_keys_some; eassumption|].
+      apply incl_appr, incl_appr, incl_appr, incl_appr, incl_refl.
+Qed.
+
+Lemma load_logic_switch_ok : forall sw rs keys,
+  load_logic_switch sw = Done (rs, COk, keys) ->
+  forall t, In t (field_trees (sw_on sw)) -> extract t = Done keys.
+Proof.
+  intros sw rs keys H t Ht. unfold load_logic_switch in H.
+  destruct (sw_on sw) as [| |ast]; cbn in Ht; try contradiction; try discriminate H.
+  destruct Ht as [<-|[]]. destruct (extract ast) as [k|e]; cbn [bind] in H; [|discriminate H].
+  destruct (sw_cases sw) as [|c cs]; [discriminate H|].
+  destruct (switch_loop (c :: cs) None [] []) as [[[dflt lmap] rs']|]; [|discriminate H].
+  destruct (negb (oc_is_ok (fold_left oc_max (map snd lmap) COk))); [|destruct dflt]; now inversion H.
+Qed.
+
+Lemma load_step_logic_ok : forall st rs nologic k0,
+  load_step_logic st = Done (rs, COk, nologic, k0) -> st_ref st = None ->
+  forall sw, st_switch st = Some sw ->
+  forall t, In t (field_trees (sw_on sw)) -> extract t = Done k0.
+Proof.
+  intros st rs nologic k0 H Hr sw Hsw t Ht. unfold load_step_logic in H. rewrite Hr, Hsw in H.
+  destruct (load_logic_switch sw) as [[[rs' c] keys]|e] eqn:E; cbn [bind] in H; [|discriminate H].
+  inversion H; subst; clear H. cbn [oc_is_ok].
+  eapply load_logic_switch_ok; eassumption.
+Qed.
+
+Lemma needed_steps_incl : forall S keys n, incl S keys -> In n (needed_steps S) -> In n (needed_steps keys).
+Proof.
+  intros S keys n Hi Hn. unfold needed_steps in *. apply in_flat_map in Hn.
+  destruct Hn as (k & Hk & Hn). apply in_flat_map. exists k. split; [now apply Hi|assumption].
+Qed.
+
+(* what it means that _load_step returned a Step *)
+Lemma load_step_step_inv : forall st known r l deps p,
+  load_step st known = Done (r, SStep l deps, p) ->
+  l = st_label st /\
+  exists keys,
+    (forall t, In t (step_trees st) -> exists S, extract t = Done S /\ incl S keys) /\
+    (forall n, In n (needed_steps keys) -> opt_mem n known = true) /\
+    deps = somes (needed_steps keys).
+Proof.
+  intros st known r l deps p H. unfold load_step in H.
+  assert (Hcases : (exists a b, st_ref st = Some a /\ st_switch st = Some b) \/
+                   (st_ref st = None \/ st_switch st = None)).
+  { destruct (st_ref st), (st_switch st); eauto. }
+  destruct Hcases as [(a & b & Ha & Hb)|Hcase].
+  { rewrite Ha, Hb in H. discriminate H. }
+  assert (H' : bind (load_step_logic st) (fun '(rs, lc, nologic, k0) =>
+      if String.eqb (st_label st) "<missing label>" then Done (rs, SErr "missing" CPermFail, needed_parent k0)
+      else if negb (oc_is_ok lc) then Done (rs, SErr (st_label st) lc, needed_parent k0)
+      else if nologic then Done (rs, SErr (st_label st) CPermFail, needed_parent k0)
+      else
+      bind (load_step_fields st k0) (fun '(ok, keys) =>
+      if negb ok then Done (rs, SErr (st_label st) CPermFail, needed_parent keys)
+      else bind (order_check (st_label st) known keys) (fun o => Done (rs, o, needed_parent keys))))
+      = Done (r, SStep l deps, p)).
+  { destruct (st_ref st), (st_switch st); try exact H. destruct Hcase; discriminate. }
+  clear H. rename H' into H.
+  destruct (load_step_logic st) as [[[[rs lc] nologic] k0]|e] eqn:EL; cbn [bind] in H; [|discriminate H].
+  destruct (String.eqb (st_label st) "<missing label>"); [discriminate H|].
+  destruct lc; cbn [oc_is_ok negb] in H; try discriminate H.
+  destruct nologic; [discriminate H|].
+  destruct (load_step_fields st k0) as [[ok keys]|e] eqn:EF; cbn [bind] in H; [|discriminate H].
+  destruct ok; cbn [negb] in H; [|discriminate H].
+  destruct (order_check (st_label st) known keys) as [o|e] eqn:EO; cbn [bind] in H; [|discriminate H].
+  inversion H; subst r o p; clear H.
+  apply order_check_step in EO. destruct EO as (-> & -> & Hmem).
+  split; [reflexivity|]. exists keys. split; [|split; [exact Hmem|reflexivity]].
+  apply load_step_fields_ok in EF. destruct EF as (Hk0 & Hfields).
+  intros t Ht. unfold step_trees in Ht. apply in_app_or in Ht. destruct Ht as [Ht|Ht].
+  - destruct (st_switch st) as [sw|] eqn:Hsw; [|contradiction].
+    assert (Hr : st_ref st = None) by (destruct Hcase as [Hc|Hc]; [exact Hc|discriminate Hc]).
+    exists k0. split; [|exact Hk0].
+    eapply load_step_logic_ok; eassumption.
+  - now apply Hfields.
+Qed.
+
+Lemma load_step_err_not_ok : forall st known r l c p,
+  load_step st known = Done (r, SErr l c, p) -> c <> COk.
+Proof.
+  intros st known r l c p H. unfold load_step in H.
+  assert (H' : c = CPermFail \/ bind (load_step_logic st) (fun '(rs, lc, nologic, k0) =>
+      if String.eqb (st_label st) "<missing label>" then Done (rs, SErr "missing" CPermFail, needed_parent k0)
+      else if negb (oc_is_ok lc) then Done (rs, SErr (st_label st) lc, needed_parent k0)
+      else if nologic then Done (rs, SErr (st_label st) CPermFail, needed_parent k0)
+      else
+      bind (load_step_fields st k0) (fun '(ok, keys) =>
+      if negb ok then Done (rs, SErr (st_label st) CPermFail, needed_parent keys)
+      else bind (order_check (st_label st) known keys) (fun o => Done (rs, o, needed_parent keys))))
+      = Done (r, SErr l c, p)).
+  { destruct (st_ref st), (st_switch st); try (right; exact H). left. now inversion H. }
+  clear H. destruct H' as [->|H]; [discriminate|].
+  destruct (load_step_logic st) as [[[[rs lc] nologic] k0]|e] eqn:EL; cbn [bind] in H; [|discriminate H].
+  destruct (String.eqb (st_label st) "<missing label>"); [inversion H; discriminate|].
+  destruct lc; cbn [oc_is_ok negb] in H; try (inversion H; discriminate).
+  destruct nologic; [inversion H; discriminate|].
+  destruct (load_step_fields st k0) as [[ok keys]|e] eqn:EF; cbn [bind] in H; [|discriminate H].
+  destruct ok; cbn [negb] in H; [|inversion H; discriminate].
+  destruct (order_check (st_label st) known keys) as [o|e] eqn:EO; cbn [bind] in H; [|discriminate H].
+  inversion H; subst. apply order_check_err in EO. subst. discriminate.
+Qed.
+
+Lemma existsb_eqb_In : forall s l, existsb (String.eqb s) l = true <-> In s l.
+Proof.
+  intros s l. rewrite existsb_exists. split.
+  - intros (x & Hx & E). apply String.eqb_eq in E. now subst.
+  - intro H. exists s. split; [assumption|apply String.eqb_refl].
+Qed.
+
+Lemma err_classes_cons_step : forall l d outs, err_classes (SStep l d :: outs) = err_classes outs.
+Proof. reflexivity. Qed.
+
+Lemma err_classes_cons_err : forall l c outs, err_classes (SErr l c :: outs) = c :: err_classes outs.
+Proof. reflexivity. Qed.
+
+(* the loop of _load_steps, when no step came out as an ErrorStep: every step was loaded with
+   known_steps = the labels before it, none is a duplicate, and each came out as a Step *)
+Lemma steps_loop_ok : forall pre st post known rs outs pp,
+  steps_loop (pre ++ st :: post) known = Done (rs, outs, pp) ->
+  Forall (fun c => c = COk) (err_classes outs) ->
+  exists known' r deps p,
+    (forall x, In x known' <-> In x (map st_label pre) \/ In x known) /\
+    load_step st known' = Done (r, SStep (st_label st) deps, p) /\
+    nth_error outs (List.length pre) = Some (SStep (st_label st) deps).
+Proof.
+  induction pre as [|a pre IH]; intros st post known rs outs pp H Hok.
+  - cbn [app steps_loop] in H.
+    destruct (existsb (String.eqb (st_label st)) known).
+    + destruct (steps_loop post known) as [[[rs' outs'] pp']|e]; cbn [bind] in H; [|discriminate H].
+      inversion H; subst. rewrite err_classes_cons_err in Hok. inversion Hok; discriminate.
+    + destruct (load_step st known) as [[[r1 o1] p1]|e] eqn:EL; cbn [bind] in H; [|discriminate H].
+      destruct (steps_loop post (st_label st :: known)) as [[[rs' outs'] pp']|e]; cbn [bind] in H; [|discriminate H].
+      inversion H; subst; clear H.
+      destruct o1 as [l c|l deps].
+      * rewrite err_classes_cons_err in Hok. inversion Hok; subst.
+        exfalso. eapply load_step_err_not_ok; [exact EL|reflexivity].
+      * pose proof (load_step_step_inv _ _ _ _ _ _ EL) as (-> & _).
+        exists known, r1, deps, p1. split; [|split; [exact EL|reflexivity]].
+        intro x. cbn. tauto.
+  - cbn [app steps_loop] in H.
+    destruct (existsb (String.eqb (st_label a)) known).
+    + destruct (steps_loop (pre ++ st :: post) known) as [[[rs' outs'] pp']|e]; cbn [bind] in H; [|discriminate H].
+      inversion H; subst. rewrite err_classes_cons_err in Hok. inversion Hok; discriminate.
+    + destruct (load_step a known) as [[[r1 o1] p1]|e] eqn:EL; cbn [bind] in H; [|discriminate H].
+      destruct (steps_loop (pre ++ st :: post) (st_label a :: known)) as [[[rs' outs'] pp']|e] eqn:ER;
+        cbn [bind] in H; [|discriminate H].
+      inversion H; subst; clear H.
+      assert (Hok' : Forall (fun c => c = COk) (err_classes outs')).
+      { destruct o1; [rewrite err_classes_cons_err in Hok; now inversion Hok|exact Hok]. }
+      destruct (IH st post (st_label a :: known) rs' outs' pp' ER Hok') as (known' & r & deps & p & Hk & HL & Hn).
+      exists known', r, deps, p. split; [|split; [exact HL|exact Hn]].
+      intro x. rewrite Hk. cbn. tauto.
+Qed.
+
+Lemma in_somes : forall l s, In s (somes l) <-> In (Some s) l.
+Proof.
+  induction l as [|[a|] r IH]; intro s; cbn; [tauto| |].
+  - rewrite IH. split; intros [H|H]; auto; left; congruence.
+  - rewrite IH. split; [auto|]. intros [H|H]; [discriminate|assumption].
+Qed.
+
+Lemma prepare_workflow_inv : forall steps w,
+  prepare_workflow steps = Done w -> pw_ready w = COk ->
+  exists rs outs pp, steps_loop steps [] = Done (rs, outs, pp) /\
+    Forall (fun c => c = COk) (err_classes outs) /\
+    pw_steps w = outs /\ pw_watched w = rs.
+Proof.
+  intros steps w H Hr. unfold prepare_workflow in H. destruct steps as [|s0 rest].
+  - inversion H; subst. discriminate Hr.
+  - destruct (steps_loop (s0 :: rest) []) as [[[rs outs] pp]|e]; cbn [bind] in H; [|discriminate H].
+    inversion H; subst; clear H. cbn in Hr. apply fold_max_ok in Hr.
+    exists rs, outs, pp. repeat split; try reflexivity. apply Hr.
+Qed.
+
+(* C14, first sentence (workflow level) + what reconcile relies on:
+   in a Workflow that is reported ready, every step was prepared as a Step whose
+   dependency set (dynamic_input_keys) contains every statically named step
+   reference of each of its expressions, and consists of labels of EARLIER steps only *)
+Theorem ready_deps_complete_and_earlier : forall steps w pre st post,
+  prepare_workflow steps = Done w -> pw_ready w = COk -> steps = pre ++ st :: post ->
+  exists deps,
+    nth_error (pw_steps w) (List.length pre) = Some (SStep (st_label st) deps) /\
+    (forall t name, In t (step_trees st) -> name_ok name = true -> occurs_steps_ref name t -> In name deps) /\
+    (forall d, In d deps -> In d (map st_label pre)).
+Proof.
+  intros steps w pre st post H Hr ->.
+  destruct (prepare_workflow_inv _ _ H Hr) as (rs & outs & pp & HL & Hok & Hs & _).
+  destruct (steps_loop_ok _ _ _ _ _ _ _ HL Hok) as (known' & r & deps & p & Hk & HS & Hn).
+  exists deps. rewrite Hs. split; [exact Hn|].
+  apply load_step_step_inv in HS. destruct HS as (_ & keys & Htrees & Hmem & ->).
+  split.
+  - intros t name Ht Hok' Hocc. apply in_somes.
+    destruct (Htrees t Ht) as (S & HS & Hincl).
+    eapply needed_steps_incl; [exact Hincl|]. eapply steps_ref_in_result; eassumption.
+  - intros d Hd. apply in_somes in Hd. specialize (Hmem _ Hd). cbn in Hmem.
+    apply existsb_eqb_In in Hmem. apply Hk in Hmem. destruct Hmem as [Hm|[]]. exact Hm.
+Qed.
+
+(* C14, second sentence: a step naming a label that is not an earlier step (a later one, an
+   unknown one, its own) makes the Workflow not ready *)
+Theorem bad_order_rejected : forall steps w pre st post t name,
+  prepare_workflow steps = Done w -> steps = pre ++ st :: post ->
+  In t (step_trees st) -> name_ok name = true -> occurs_steps_ref name t ->
+  ~ In name (map st_label pre) ->
+  pw_ready w <> COk.
+Proof.
+  intros steps w pre st post t name H Hs Ht Hok Hocc Hnot Hr.
+  destruct (ready_deps_complete_and_earlier _ _ _ _ _ H Hr Hs) as (deps & _ & Hc & He).
+  apply Hnot, He. eapply Hc; eassumption.
+Qed.
+
+(* ... and a Workflow that is not ready is not run: reconcile_workflow creates no step task *)
+Theorem not_ready_runs_nothing : forall w, pw_ready w <> COk -> started_steps w = [].
+Proof. intros w H. unfold started_steps. destruct (pw_ready w); [congruence|reflexivity|reflexivity]. Qed.
+
+(* duplicate labels, too, make the Workflow not ready *)
+Theorem duplicate_label_rejected : forall steps w pre st post,
+  prepare_workflow steps = Done w -> steps = pre ++ st :: post ->
+  In (st_label st) (map st_label pre) -> pw_ready w <> COk.
+Proof.
+  intros steps w pre st post H -> Hdup Hr.
+  destruct (prepare_workflow_inv _ _ H Hr) as (rs & outs & pp & HL & Hok & _ & _).
+  clear H Hr. revert Hdup HL Hok. generalize (@nil string) as known. revert rs outs pp.
+  induction pre as [|a pre IH]; intros rs outs pp known Hdup HL Hok; [contradiction|].
+  cbn [app steps_loop] in HL.
+  destruct (existsb (String.eqb (st_label a)) known).
+  - destruct (steps_loop (pre ++ st :: post) known) as [[[rs' outs'] pp']|e]; cbn [bind] in HL; [|discriminate HL].
+    inversion HL; subst. rewrite err_classes_cons_err in Hok. inversion Hok; discriminate.
+  - destruct (load_step a known) as [[[r1 o1] p1]|e] eqn:EL; cbn [bind] in HL; [|discriminate HL].
+    destruct (steps_loop (pre ++ st :: post) (st_label a :: known)) as [[[rs' outs'] pp']|e] eqn:ER;
+      cbn [bind] in HL; [|discriminate HL].
+    inversion HL; subst; clear HL.
+    assert (Hok' : Forall (fun c => c = COk) (err_classes outs')).
+    { destruct o1; [rewrite err_classes_cons_err in Hok; now inversion Hok|exact Hok]. }
+    destruct Hdup as [Hd|Hd].
+    + (* st has a's label: when st is reached, the label is known *)
+      destruct (steps_loop_ok _ _ _ _ _ _ _ ER Hok') as (known' & r & deps & p & Hk & HS & _).
+      clear IH. revert ER Hok'. clear - Hd.
+      intros ER Hok'.
+      assert (Hin : forall pre' known0 rs0 outs0 pp0,
+                 In (st_label st) known0 ->
+                 steps_loop (pre' ++ st :: post) known0 = Done (rs0, outs0, pp0) ->
+                 Forall (fun c => c = COk) (err_classes outs0) -> False).
+      { induction pre' as [|b pre' IHp]; intros known0 rs0 outs0 pp0 Hin0 HL0 Hok0.
+        - cbn [app steps_loop] in HL0. apply existsb_eqb_In in Hin0. rewrite Hin0 in HL0.
+          destruct (steps_loop post known0) as [[[x y] z]|e]; cbn [bind] in HL0; [|discriminate HL0].
+          inversion HL0; subst. rewrite err_classes_cons_err in Hok0. inversion Hok0; discriminate.
+        - cbn [app steps_loop] in HL0.
+          destruct (existsb (String.eqb (st_label b)) known0).
+          + destruct (steps_loop (pre' ++ st :: post) known0) as [[[x y] z]|e]; cbn [bind] in HL0; [|discriminate HL0].
+            inversion HL0; subst. rewrite err_classes_cons_err in Hok0. inversion Hok0; discriminate.
+          + destruct (load_step b known0) as [[[r2 o2] p2]|e]; cbn [bind] in HL0; [|discriminate HL0].
+            destruct (steps_loop (pre' ++ st :: post) (st_label b :: known0)) as [[[x y] z]|e] eqn:ER0;
+              cbn [bind] in HL0; [|discriminate HL0].
+            inversion HL0; subst; clear HL0.
+            eapply (IHp (st_label b :: known0)); [now right|exact ER0|].
+            destruct o2; [rewrite err_classes_cons_err in Hok0; now inversion Hok0|exact Hok0]. }
+      apply (Hin pre (st_label a :: known) rs' outs' pp'); [cbn; left; exact Hd|exact ER|exact Hok'].
+    + exact (IH rs' outs' pp' (st_label a :: known) Hd ER Hok').
+Qed.
+
+(* ---- the watch list ---- *)
+
+Definition ref_valid (r : ref_spec) : bool :=
+  negb (String.eqb (rf_kind r) "") && negb (String.eqb (rf_name r) "") && valid_kind (rf_kind r).
+Definition ref_resource (r : ref_spec) : resource := (rf_kind r, rf_name r).
+
+(* the Logic a step names: its `ref`, or every case of its `refSwitch` (when the switch
+   itself is well formed: switchOn compiles, at most one default) *)
+Inductive names_logic (st : step_spec) : resource -> Prop :=
+| nl_ref : forall r, st_ref st = Some r -> st_switch st = None -> ref_valid r = true ->
+    names_logic st (ref_resource r)
+| nl_case : forall sw ast c, st_ref st = None -> st_switch st = Some sw -> sw_on sw = FExpr ast ->
+    List.length (filter cs_default (sw_cases sw)) <= 1 ->
+    In c (sw_cases sw) -> ref_valid (cs_ref c) = true ->
+    names_logic st (ref_resource (cs_ref c)).
+
+Lemma load_logic_valid : forall r, ref_valid r = true ->
+  exists c, load_logic r = (Some [ref_resource r], c).
+Proof.
+  intros r H. unfold ref_valid in H. apply andb_true_iff in H. destruct H as [H H3].
+  apply andb_true_iff in H. destruct H as [H1 H2].
+  apply negb_true_iff in H1. apply negb_true_iff in H2.
+  unfold load_logic. rewrite H1, H2, H3. cbn. eexists; reflexivity.
+Qed.
+
+Lemma load_logic_res : forall r l c, load_logic r = (Some l, c) -> l = [ref_resource r].
+Proof.
+  intros r l c H. unfold load_logic in H.
+  destruct (String.eqb (rf_kind r) ""); [discriminate H|].
+  destruct (String.eqb (rf_name r) ""); [discriminate H|].
+  destruct (negb (valid_kind (rf_kind r))); [discriminate H|]. now inversion H.
+Qed.
+
+Lemma switch_loop_res : forall cases dflt lmap rs dflt' lmap' rs',
+  switch_loop cases dflt lmap rs = Some (dflt', lmap', rs') ->
+  incl rs rs' /\
+  forall c, In c cases -> ref_valid (cs_ref c) = true -> In (ref_resource (cs_ref c)) rs'.
+Proof.
+  induction cases as [|c0 rest IH]; intros dflt lmap rs dflt' lmap' rs' H.
+  - inversion H; subst. split; [apply incl_refl|intros c []].
+  - cbn [switch_loop] in H.
+    destruct (if cs_default c0 then dflt else None); [discriminate H|].
+    destruct (load_logic (cs_ref c0)) as [lr lc] eqn:EL.
+    apply IH in H. destruct H as (Hincl & Hall). split.
+    + intros x Hx. apply Hincl. destruct lr; [apply in_or_app; now left|assumption].
+    + intros c [<-|Hc] Hv; [|now apply Hall].
+      apply Hincl. destruct (load_logic_valid _ Hv) as (c' & E). rewrite E in EL. inversion EL; subst.
+      apply in_or_app. right. now left.
+Qed.
+
+Lemma switch_loop_some : forall cases (dflt : option oclass) lmap rs,
+  List.length (filter cs_default cases) + (if dflt then 1 else 0) <= 1 ->
+  switch_loop cases dflt lmap rs <> None.
+Proof.
+  induction cases as [|c0 rest IH]; intros dflt lmap rs H; [discriminate|].
+  cbn [switch_loop]. cbn [filter] in H.
+  destruct (cs_default c0) eqn:Ed.
+  - destruct dflt as [d|]; [cbn in H; lia|].
+    destruct (load_logic (cs_ref c0)) as [lr lc]. apply IH. cbn in H |- *. lia.
+  - destruct (load_logic (cs_ref c0)) as [lr lc]. apply IH. exact H.
+Qed.
+
+Lemma load_logic_switch_res : forall sw ast r1 c keys cs,
+  load_logic_switch sw = Done (r1, c, keys) -> sw_on sw = FExpr ast ->
+  List.length (filter cs_default (sw_cases sw)) <= 1 ->
+  In cs (sw_cases sw) -> ref_valid (cs_ref cs) = true ->
+  exists l, r1 = Some l /\ In (ref_resource (cs_ref cs)) l.
+Proof.
+  intros sw ast r1 c keys cs H Hon Hd Hin Hv. unfold load_logic_switch in H. rewrite Hon in H.
+  destruct (extract ast) as [k|e]; cbn [bind] in H; [|discriminate H].
+  destruct (sw_cases sw) as [|c0 rest] eqn:Ec; [contradiction|].
+  destruct (switch_loop (c0 :: rest) None [] []) as [[[dflt lmap] rs']|] eqn:ES.
+  - apply switch_loop_res in ES. destruct ES as (_ & Hall).
+    exists rs'. split; [|now apply Hall].
+    destruct (negb (oc_is_ok (fold_left oc_max (map snd lmap) COk))); [|destruct dflt]; now inversion H.
+  - exfalso. eapply switch_loop_some; [|exact ES]. cbn [Nat.add]. lia.
+Qed.
+
+Lemma load_step_res : forall st known r1 o p,
+  load_step st known = Done (r1, o, p) -> (st_ref st = None \/ st_switch st = None) ->
+  exists lc nologic k0, load_step_logic st = Done (r1, lc, nologic, k0).
+Proof.
+  intros st known r1 o p H Hcase. unfold load_step in H.
+  assert (H' : bind (load_step_logic st) (fun '(rs, lc, nologic, k0) =>
+      if String.eqb (st_label st) "<missing label>" then Done (rs, SErr "missing" CPermFail, needed_parent k0)
+      else if negb (oc_is_ok lc) then Done (rs, SErr (st_label st) lc, needed_parent k0)
+      else if nologic then Done (rs, SErr (st_label st) CPermFail, needed_parent k0)
+      else
+      bind (load_step_fields st k0) (fun '(ok, keys) =>
+      if negb ok then Done (rs, SErr (st_label st) CPermFail, needed_parent keys)
+      else bind (order_check (st_label st) known keys) (fun o => Done (rs, o, needed_parent keys))))
+      = Done (r1, o, p)).
+  { destruct (st_ref st), (st_switch st); try exact H. destruct Hcase; discriminate. }
+  clear H. rename H' into H.
+  destruct (load_step_logic st) as [[[[rs lc] nologic] k0]|e] eqn:EL; cbn [bind] in H; [|discriminate H].
+  exists lc, nologic, k0.
+  destruct (String.eqb (st_label st) "<missing label>"); [now inversion H|].
+  destruct (negb (oc_is_ok lc)); [now inversion H|].
+  destruct nologic; [now inversion H|].
+  destruct (load_step_fields st k0) as [[ok keys]|e]; cbn [bind] in H; [|discriminate H].
+  destruct (negb ok); [now inversion H|].
+  destruct (order_check (st_label st) known keys) as [o'|e]; cbn [bind] in H; [|discriminate H].
+  now inversion H.
+Qed.
+
+Lemma load_step_names : forall st known r1 o p r,
+  load_step st known = Done (r1, o, p) -> names_logic st r ->
+  exists l, r1 = Some l /\ In r l.
+Proof.
+  intros st known r1 o p r H Hn. destruct Hn as [r0 Hr Hs Hv|sw ast c Hr Hs Hon Hd Hin Hv].
+  - destruct (load_step_res _ _ _ _ _ H (or_intror Hs)) as (lc & nl & k0 & EL).
+    unfold load_step_logic in EL. rewrite Hr in EL.
+    destruct (load_logic_valid _ Hv) as (c' & E). rewrite E in EL. inversion EL; subst.
+    eexists; split; [reflexivity|now left].
+  - destruct (load_step_res _ _ _ _ _ H (or_introl Hr)) as (lc & nl & k0 & EL).
+    unfold load_step_logic in EL. rewrite Hr, Hs in EL.
+    destruct (load_logic_switch sw) as [[[rs' c'] keys]|e] eqn:ES; cbn [bind] in EL; [|discriminate EL].
+    inversion EL; subst. eapply load_logic_switch_res; eassumption.
+Qed.
+
+Lemma steps_loop_res : forall pre st post known rs outs pp,
+  steps_loop (pre ++ st :: post) known = Done (rs, outs, pp) ->
+  ~ In (st_label st) (map st_label pre) -> ~ In (st_label st) known ->
+  exists known' r1 o p, load_step st known' = Done (r1, o, p) /\
+                        forall l, r1 = Some l -> incl l rs.
+Proof.
+  induction pre as [|a pre IH]; intros st post known rs outs pp H Hn1 Hn2.
+  - cbn [app steps_loop] in H.
+    destruct (existsb (String.eqb (st_label st)) known) eqn:Ex.
+    + apply existsb_eqb_In in Ex. contradiction.
+    + destruct (load_step st known) as [[[r1 o1] p1]|e] eqn:EL; cbn [bind] in H; [|discriminate H].
+      destruct (steps_loop post (st_label st :: known)) as [[[rs' outs'] pp']|e]; cbn [bind] in H; [|discriminate H].
+      inversion H; subst. exists known, r1, o1, p1. split; [exact EL|].
+      intros l ->. apply incl_appl, incl_refl.
+  - cbn [app steps_loop] in H. cbn [map In] in Hn1.
+    destruct (existsb (String.eqb (st_label a)) known).
+    + destruct (steps_loop (pre ++ st :: post) known) as [[[rs' outs'] pp']|e] eqn:ER; cbn [bind] in H; [|discriminate H].
+      inversion H; subst. eapply IH; [exact ER|tauto|assumption].
+    + destruct (load_step a known) as [[[r1 o1] p1]|e]; cbn [bind] in H; [|discriminate H].
+      destruct (steps_loop (pre ++ st :: post) (st_label a :: known)) as [[[rs' outs'] pp']|e] eqn:ER;
+        cbn [bind] in H; [|discriminate H].
+      inversion H; subst.
+      destruct (IH st post (st_label a :: known) rs' outs' pp' ER) as (known' & r & o & p & HL & Hi).
+      * tauto.
+      * cbn [In]. tauto.
+      * exists known', r, o, p. split; [exact HL|]. intros l Hl. apply incl_appr. now apply Hi.
+Qed.
+
+(* C14, third sentence (Workflow): every Logic a step names - its ref, every case of its
+   refSwitch, whether or not it could be loaded from the cache - is in the watch list *)
+Theorem watched_complete_workflow : forall steps w pre st post r,
+  prepare_workflow steps = Done w -> steps = pre ++ st :: post ->
+  ~ In (st_label st) (map st_label pre) ->
+  names_logic st r -> In r (pw_watched w).
+Proof.
+  intros steps w pre st post r H -> Hnd Hn. unfold prepare_workflow in H.
+  destruct (pre ++ st :: post) as [|s0 rest] eqn:E; [destruct pre; discriminate E|].
+  rewrite <- E in H.
+  destruct (steps_loop (pre ++ st :: post) []) as [[[rs outs] pp]|e] eqn:EL; cbn [bind] in H; [|discriminate H].
+  inversion H; subst; clear H. cbn [pw_watched].
+  destruct (steps_loop_res _ _ _ _ _ _ _ EL Hnd (fun x => x)) as (known' & r1 & o & p & HL & Hi).
+  destruct (load_step_names _ _ _ _ _ _ HL Hn) as (l & -> & Hin).
+  now apply (Hi l eq_refl).
+Qed.
+
+(* ResourceFunction: every overlayRef function is reported whenever a prepared function is returned *)
+Theorem watched_complete_rf : forall ovs W o name,
+  rf_watched true ovs = Some W -> In o ovs -> ov_skip_if o <> FFail -> ov_body o = ORef name ->
+  In name W.
+Proof.
+  intros ovs W o name H Hin Hs Hb. cbn in H. inversion H; subst; clear H.
+  unfold overlay_watched. apply in_flat_map. exists o. split; [assumption|].
+  rewrite Hb. destruct (ov_skip_if o); [now left|congruence|now left].
+Qed.
+
+(* FunctionTest: the function under test is the first watched resource *)
+Theorem watched_complete_ft : forall kind name r,
+  ft_watched_head kind name true true = Some r -> r = (kind, name).
+Proof.
+  intros kind name r H. unfold ft_watched_head, ft_function in H.
+  destruct (String.eqb kind ""); [discriminate H|].
+  destruct (String.eqb name ""); [discriminate H|].
+  destruct (String.eqb kind "ValueFunction" || String.eqb kind "ResourceFunction"); [|discriminate H].
+  cbn in H. now inversion H.
+Qed.
+
+Theorem ft_watched_some : forall kind name,
+  (kind = "ValueFunction" \/ kind = "ResourceFunction") -> name <> "" ->
+  ft_watched_head kind name true true = Some (kind, name).
+Proof.
+  intros kind name Hk Hn. unfold ft_watched_head, ft_function.
+  apply String.eqb_neq in Hn. rewrite Hn. destruct Hk as [->| ->]; reflexivity.
+Qed.
+
+(* ---- what prepare_workflow can raise ---- *)
+
+Definition trees_wf (ts : list node) : Prop := Forall (fun t => cel_tree_wf t = true) ts.
+
+Lemma field_keys_total : forall f, trees_wf (field_trees f) -> exists o, field_keys f = Done o.
+Proof.
+  intros [| |ast] H; cbn; try (eexists; reflexivity).
+  inversion H as [|? ? Hw _]; subst. destruct (extract_total ast Hw) as (S & ->). cbn. eexists; reflexivity.
+Qed.
+
+Lemma fe_keys_total : forall f, trees_wf (fe_trees f) -> exists o, fe_keys f = Done o.
+Proof.
+  intros [| |ast hk] H; cbn; try (eexists; reflexivity).
+  inversion H as [|? ? Hw _]; subst. destruct (extract_total ast Hw) as (S & ->). cbn. eexists; reflexivity.
+Qed.
+
+Lemma load_logic_switch_total : forall sw, trees_wf (field_trees (sw_on sw)) ->
+  exists x, load_logic_switch sw = Done x.
+Proof.
+  intros sw H. unfold load_logic_switch. destruct (sw_on sw) as [| |ast]; try (eexists; reflexivity).
+  inversion H as [|? ? Hw _]; subst. destruct (extract_total ast Hw) as (S & ->). cbn [bind].
+  destruct (sw_cases sw) as [|c cs]; [eexists; reflexivity|].
+  destruct (switch_loop (c :: cs) None [] []) as [[[dflt lmap] rs']|]; [|eexists; reflexivity].
+  destruct (negb (oc_is_ok (fold_left oc_max (map snd lmap) COk))); [|destruct dflt]; eexists; reflexivity.
+Qed.
+
+Lemma trees_wf_app : forall a b, trees_wf (a ++ b) -> trees_wf a /\ trees_wf b.
+Proof. intros a b H. unfold trees_wf in *. now apply Forall_app in H. Qed.
+
+Lemma load_step_raises : forall st known e,
+  trees_wf (step_trees st) -> load_step st known = Raised e -> e = ETypeError.
+Proof.
+  intros st known e Hw H. unfold step_trees in Hw.
+  apply trees_wf_app in Hw. destruct Hw as [Hsw Hw].
+  apply trees_wf_app in Hw. destruct Hw as [H1 Hw].
+  apply trees_wf_app in Hw. destruct Hw as [H2 Hw].
+  apply trees_wf_app in Hw. destruct Hw as [H3 H4].
+  unfold load_step in H.
+  assert (HL : exists x, load_step_logic st = Done x).
+  { unfold load_step_logic. destruct (st_ref st) as [r|].
+    - destruct (load_logic r). eexists; reflexivity.
+    - destruct (st_switch st) as [sw|]; [|eexists; reflexivity].
+      destruct (load_logic_switch_total sw Hsw) as ([[rs c] keys] & ->). cbn. eexists; reflexivity. }
+  destruct HL as ([[[rs lc] nologic] k0] & HL).
+  assert (H' : (if String.eqb (st_label st) "<missing label>" then Done (rs, SErr "missing" CPermFail, needed_parent k0)
+      else if negb (oc_is_ok lc) then Done (rs, SErr (st_label st) lc, needed_parent k0)
+      else if nologic then Done (rs, SErr (st_label st) CPermFail, needed_parent k0)
+      else
+      bind (load_step_fields st k0) (fun '(ok, keys) =>
+      if negb ok then Done (rs, SErr (st_label st) CPermFail, needed_parent keys)
+      else bind (order_check (st_label st) known keys) (fun o => Done (rs, o, needed_parent keys))))
+      = Raised e).
+  { rewrite HL in H. cbn [bind] in H. destruct (st_ref st), (st_switch st); try exact H. discriminate H. }
+  clear H. rename H' into H.
+  destruct (String.eqb (st_label st) "<missing label>"); [discriminate H|].
+  destruct (negb (oc_is_ok lc)); [discriminate H|].
+  destruct nologic; [discriminate H|].
+  assert (HF : exists x, load_step_fields st k0 = Done x).
+  { unfold load_step_fields.
+    destruct (field_keys_total _ H1) as ([k1|] & ->); cbn [bind]; [|eexists; reflexivity].
+    destruct (fe_keys_total _ H2) as ([k2|] & ->); cbn [bind]; [|eexists; reflexivity].
+    destruct (field_keys_total _ H3) as ([k3|] & ->); cbn [bind]; [|eexists; reflexivity].
+    destruct (field_keys_total _ H4) as ([k4|] & ->); cbn [bind]; eexists; reflexivity. }
+  destruct HF as ([ok keys] & HF). rewrite HF in H. cbn [bind] in H.
+  destruct (negb ok); [discriminate H|].
+  destruct (order_check (st_label st) known keys) as [o|e'] eqn:EO; cbn [bind] in H; [discriminate H|].
+  inversion H; subst. now apply order_check_raises in EO.
+Qed.
+
+Lemma steps_loop_raises : forall steps known e,
+  Forall (fun st => trees_wf (step_trees st)) steps ->
+  steps_loop steps known = Raised e -> e = ETypeError.
+Proof.
+  induction steps as [|st rest IH]; intros known e Hw H; [discriminate H|].
+  inversion Hw as [|? ? Hst Hrest]; subst. cbn [steps_loop] in H.
+  destruct (existsb (String.eqb (st_label st)) known).
+  - destruct (steps_loop rest known) as [[[rs outs] pp]|e'] eqn:ER; cbn [bind] in H; [discriminate H|].
+    inversion H; subst. eapply IH; eassumption.
+  - destruct (load_step st known) as [[[r1 o1] p1]|e'] eqn:EL; cbn [bind] in H.
+    + destruct (steps_loop rest (st_label st :: known)) as [[[rs outs] pp]|e''] eqn:ER; cbn [bind] in H; [discriminate H|].
+      inversion H; subst. eapply IH; eassumption.
+    + inversion H; subst. eapply load_step_raises; eassumption.
+Qed.
+
+(* with expressions from the CEL grammar, the only exception prepare_workflow's step loading
+   can raise is the TypeError of the order check's message *)
+Theorem prepare_workflow_raises_only : forall steps e,
+  Forall (fun st => trees_wf (step_trees st)) steps ->
+  prepare_workflow steps = Raised e -> e = ETypeError.
+Proof.
+  intros steps e Hw H. unfold prepare_workflow in H. destruct steps as [|s0 rest]; [discriminate H|].
+  destruct (steps_loop (s0 :: rest) []) as [[[rs outs] pp]|e'] eqn:EL; cbn [bind] in H; [discriminate H|].
+  inversion H; subst. eapply steps_loop_raises; eassumption.
+Qed.
+
+(* ... and that one does happen (genuine defect of the unchanged code): a key that
+   matches STEPS_NAME_PATTERN without a name puts None into needed_steps, and
+   ', '.join(...) of the error message raises.  Witnesses: `stepsX.foo` and `steps['.a']`
+   as the inputs expression of the only step. *)
+Definition tree_stepsX_foo : node :=
+  ch 0 7 (N "member_dot" [N "member" [N "primary" [N "ident" [Tok "IDENT" "stepsX"]]]; Tok "IDENT" "foo"]).
+Definition tree_steps_dot_a : node :=
+  ch 0 7 (N "member_index" [steps_member; lit_expr "STRING_LIT" "'.a'"]).
+
+Definition one_step (t : node) : list step_spec :=
+  [{| st_label := "aaa";
+      st_ref := Some {| rf_kind := "ValueFunction"; rf_name := "f"; rf_cache := CHealthy |};
+      st_switch := None; st_skip_if := FNone; st_for_each := FENone;
+      st_inputs := FExpr t; st_state := FNone |}].
+
+Theorem prepare_workflow_total_refuted :
+  exists steps, Forall (fun st => Forall (fun t => cel_expr_wf t = true) (step_trees st)) steps /\
+                prepare_workflow steps = Raised ETypeError.
+Proof.
+  exists (one_step tree_stepsX_foo). split; [|vm_compute; reflexivity].
+  repeat constructor.
+Qed.
+
+Theorem unknown_label_reported_refuted :
+  exists steps st t, steps = [st] /\ In t (step_trees st) /\ cel_expr_wf t = true /\
+    occurs_steps_ref ".a" t /\ prepare_workflow steps = Raised ETypeError.
+Proof.
+  eexists (one_step tree_steps_dot_a), _, tree_steps_dot_a.
+  split; [reflexivity|]. split; [cbn; now left|]. split; [vm_compute; reflexivity|].
+  split; [|vm_compute; reflexivity].
+  unfold tree_steps_dot_a, ch. cbn [levels skipn firstn Nat.sub chain fold_right].
+  do 8 (eapply occ_child; [now left|]).
+  apply occ_here. apply (dr_index ".a" "'"%char (quote1 "'"%char) "STRING_LIT");
+    [now left|left; split; reflexivity|reflexivity|reflexivity].
+Qed.
+
+(* ---- exactly which names the regular expression gives back ---- *)
+
+Lemma take_name_fix : forall s, take_name s = s -> all_chars not_dot_bracket s = true.
+Proof.
+  induction s as [|a r IH]; intro H; [reflexivity|].
+  cbn [take_name] in H. cbn [all_chars]. unfold not_dot_bracket at 1.
+  destruct (Ascii.eqb a "."%char || Ascii.eqb a "["%char); [discriminate H|].
+  inversion H as [H']. rewrite H'. cbn. now apply IH.
+Qed.
+
+Theorem steps_name_exact : forall name,
+  steps_name ("steps." +++ name) = Some (Some name) <-> name_ok name = true.
+Proof.
+  intro name. split; [|apply steps_name_key].
+  unfold steps_name. rewrite strip_prefix_steps, any_char_dot. intro H.
+  destruct (String.eqb_spec (take_name name) "") as [E|E]; [discriminate H|].
+  assert (H' : take_name name = name) by congruence. clear H.
+  unfold name_ok. rewrite H' in E.
+  apply String.eqb_neq in E. rewrite E. cbn. now apply take_name_fix.
+Qed.
+
+(* a longer access path on the same step gives the same name *)
+Lemma take_name_app_dot : forall name rest, all_chars not_dot_bracket name = true ->
+  take_name (name +++ String "."%char rest) = name.
+Proof.
+  induction name as [|a r IH]; intros rest H; [reflexivity|].
+  cbn in H. apply andb_true_iff in H. destruct H as [Ha Hr].
+  rewrite sapp_cons. cbn [take_name]. unfold not_dot_bracket in Ha. apply negb_true_iff in Ha.
+  rewrite Ha. now rewrite IH.
+Qed.
+
+Theorem steps_name_path : forall name rest, name_ok name = true ->
+  steps_name ("steps." +++ name +++ "." +++ rest) = Some (Some name).
+Proof.
+  intros name rest H. unfold name_ok in H. apply andb_true_iff in H. destruct H as [Hne Hc].
+  unfold steps_name. rewrite strip_prefix_steps, any_char_dot.
+  change ("." +++ rest) with (String "."%char rest).
+  rewrite take_name_app_dot by assumption.
+  apply negb_true_iff in Hne. now rewrite Hne.
+Qed.
+
+(* valid labels in every supported written form *)
+Theorem label_forms : forall name, label_ok name = true ->
+  name_ok name = true /\
+  direct_ref name (N "member_dot" [steps_member; Tok "IDENT" name]) /\
+  forall q, q = "'"%char \/ q = """"%char ->
+    direct_ref name (N "member_index" [steps_member; lit_expr "STRING_LIT" (quote1 q +++ name +++ quote1 q)]) /\
+    direct_ref name (N "member_index" [steps_member; lit_expr "MLSTRING_LIT" (quote3 q +++ name +++ quote3 q)]).
+Proof.
+  intros name H. split; [now apply label_ok_name_ok|]. split; [constructor|].
+  intros q Hq. destruct (label_ok_no_edge_quote name q Hq H) as (Hf & Hl).
+  split; apply (dr_index name q); try assumption; [left|right]; split; reflexivity.
+Qed.
